@@ -4,7 +4,7 @@ use crate::api::{fq, fq2, fq2v, fqv, lib, GroupApi};
 use crate::c12::fq2_alpha;
 use mccore::alpha::{dedup, fp_alpha};
 use mccore::{ensure, gs, gu, jn, Bad, Meta, Run, Spec, Tally};
-use num_traits::Zero;
+use num_traits::{One, Zero};
 use refmodel::{be, is_square_mod, mulm, n, negm, q, F2, Fld, Fmt, N};
 use serde_json::{json, Value};
 use sm9_core::{G1, G2};
@@ -158,6 +158,53 @@ pub fn run(run: &Run) {
         xs.push(F2 { a: a.clone(), b: N::zero() });
         xs.push(F2 { a: N::zero(), b: a.clone() });
     }
+    // operands of the modular HALVINGS inside Fq2::sqrt with a prescribed stored (Montgomery) word h: odd, with a run
+    // of one bits above bit 0 that crosses 1, 2 or 3 limb boundaries, or with a zero low limb above bit 0 (the carry
+    // classes of a limb-wise (a + q) / 2). (i) a real non-residue a = -h (the root is sqrt(-a/2) u); (ii) squares
+    // (c + d u)^2 with 2 c^2 = h resp. -4 d^2 = h (the two candidates (a +- w)/2 of the general arm).
+    let mut n_halving = 0u64;
+    {
+        let ri = mccore::alpha::rinv(&p);
+        let hi = refmodel::nhex("123456789abcdef00fedcba987654321") << 128u32;
+        let half_inv = refmodel::invm(&n(2), &p).unwrap();
+        let m4_inv = refmodel::invm(&negm(&n(4), &p), &p).unwrap();
+        for (w, low) in [(65u32, (N::one() << 65u32) - N::one()), (129, (N::one() << 129u32) - N::one()), (193, (N::one() << 193u32) - N::one()), (65, N::one())] {
+            let mut done = [false; 3];
+            for k in 1u64..200 {
+                let m = ((&hi >> (w + 24)) << (w + 24)) | (N::from(k) << w) | &low;
+                if m >= p {
+                    continue;
+                }
+                let h = mulm(&m, &ri, &p);
+                let a = negm(&h, &p);
+                if !done[0] && !refmodel::is_square_mod(&a, &p) {
+                    xs.push(F2 { a: a.clone(), b: N::zero() });
+                    done[0] = true;
+                    n_halving += 1;
+                }
+                if !done[1] {
+                    if let Some(c) = refmodel::sqrt_mod(&mulm(&h, &half_inv, &p), &p) {
+                        xs.push(F2 { a: c.clone(), b: n(1) }.sq());
+                        xs.push(F2 { a: c, b: n(3) }.sq());
+                        done[1] = true;
+                        n_halving += 2;
+                    }
+                }
+                if !done[2] {
+                    if let Some(d) = refmodel::sqrt_mod(&mulm(&h, &m4_inv, &p), &p) {
+                        xs.push(F2 { a: n(1), b: d.clone() }.sq());
+                        xs.push(F2 { a: n(3), b: d }.sq());
+                        done[2] = true;
+                        n_halving += 2;
+                    }
+                }
+                if done.iter().all(|x| *x) {
+                    break;
+                }
+            }
+        }
+    }
+    run.note("halving_operand_members", json!(n_halving));
     let mut seen = std::collections::HashSet::new();
     xs.retain(|x| seen.insert(x.clone()));
     const C2: [&str; 10] = ["square", "non-residue", "real:residue<q/2", "real:residue>q/2", "real:nonresidue<q/2", "real:nonresidue>q/2", "purely-imaginary", "generic", "norm=1,im!=0", "norm=1,im!=0,2(re+1) a non-residue"];
